@@ -130,6 +130,8 @@ struct Baseline {
     nodes_depth1: u64,
     nodes_total: u64,
     boundaries: Vec<u64>,
+    /// result of the clean run to depth k (index k-1): best move and score text
+    clean: Vec<(Option<String>, Option<String>)>,
 }
 
 fn baseline(fen: &str, history: &[String], depth: u32) -> Result<Baseline, String> {
@@ -141,14 +143,16 @@ fn baseline(fen: &str, history: &[String], depth: u32) -> Result<Baseline, Strin
     let nodes_depth1 = s.vs.nodes_of_last_search();
     let depth1_score = last_score(&a);
     let mut boundaries = Vec::new();
+    let mut clean = Vec::new();
     let mut nodes_total = 0;
     for d in 1..=depth {
         let mut s = Sync::new(fen, history)?;
-        s.go(d as u64, None);
+        let a = s.go(d as u64, None);
         nodes_total = s.vs.nodes_of_last_search();
         boundaries.push(nodes_total);
+        clean.push((a.best.first().cloned().flatten().map(|m| m.to_string()), last_score(&a)));
     }
-    Ok(Baseline { root, root_fen, legal, depth1_score, nodes_depth1, nodes_total, boundaries })
+    Ok(Baseline { root, root_fen, legal, depth1_score, nodes_depth1, nodes_total, boundaries, clean })
 }
 
 /// one search interrupted at `node` (after the interrupted searches in `before`), then all checks
@@ -183,6 +187,25 @@ fn one_point(fen: &str, history: &[String], depth: u32, time_up: bool, node: u64
         None => {
             if iteration_completed && !base.legal.is_empty() {
                 return Err(what(": bestmove 0000 although at least one iteration had completed"));
+            }
+        }
+    }
+    // "taken from the last completed iteration": k iterations were complete when the poll fired
+    let k = base.boundaries.iter().filter(|b| **b <= node).count();
+    // (node counts per iteration depend on killers / pv carried over from earlier searches, so the iteration
+    // boundaries of the fresh baseline only apply to a fresh instance)
+    if k >= 1 && interrupted && before.is_empty() {
+        let last = a.infos.iter().rev().find(|i| i.score.is_some());
+        let reported_depth = last.and_then(|i| i.depth);
+        if reported_depth != Some(k as u32) {
+            return Err(what(&format!(": {k} iteration(s) had completed when the search was interrupted, but the final report claims depth {reported_depth:?}")));
+        }
+        {
+            // on a fresh instance the run is deterministic: same move and score as the clean search to depth k
+            let (cb, cs) = &base.clean[k - 1];
+            let got_best = a.best[0].as_ref().map(|m| m.to_string());
+            if &got_best != cb || &last_score(&a) != cs {
+                return Err(what(&format!(": answered {got_best:?} / {:?}, but the last completed iteration (depth {k}) gives {cb:?} / {cs:?}", last_score(&a))));
             }
         }
     }
